@@ -78,6 +78,11 @@ def handle : Handler := fun op args =>
     -- `self.Point(*P)` happens before either backend is entered
     if ¬ containsPoint c P then some "err NoSuchPointError" else
     some (showRes showPt (viaBackend (configOf ct) c (multiply c P (← parseInt? k))))
+  | "ec_mul_orderless", [ct, P, k] => do
+    let c ← parseCurve? ct
+    let P ← parsePt? P
+    if ¬ containsPoint c P then some "err NoSuchPointError" else
+    some (showRes showPt (multiply { c with n := 0 } P (← parseInt? k)))
   | "ec_rawmul", [c, k] => do
     some (showRes showPt (rawMul (← parseCurve? c) (← parseInt? k)))
   | "ec_blindmul", [c, k, b] => do
